@@ -1,13 +1,77 @@
 (* Props/C20.v -- refine() keeps the input geometry and honours its documented contract.
-   The refinement loop is not modelled.  Decided per call on the implementation's before/after states (Refine/Outer.v): the vertex
-   prefix is bit-identical, the vertex budget is respected, original constraints are covered by chains of constraint edges through
-   Steiner points (or kept unchanged with keep_constraint_edges), excluded_faces equals the parity specification (0-1 breadth
-   first search from the outer face; even layers), the result is a well-formed DCEL.  Angle / area guarantees are not decided.
-   Proved: the result-list decision is exactly set equality without duplicates. *)
+   The refinement loop is not modelled.  Decided per call on the implementation's before/after states (Check/Run.v check_refine,
+   Refine/Outer.v): the vertex prefix is bit-identical, the vertex budget is respected, original constraints are covered by walks of
+   constraint edges through Steiner points (or kept unchanged with keep_constraint_edges), excluded_faces equals the parity specification,
+   the result is a well-formed DCEL.  Angle / area guarantees are not decided.
+   Proved here (Refine/OuterProp.v, Refine/OuterProofs.v): the executable parity specification is exactly the declarative one --
+   `layers` computes, for every k, the set of faces whose cheapest dual path from the outer face crosses exactly k constraint edges
+   (soundness and completeness; the fuel of free_closure and of layers is proved sufficient by counting faces, no fuel hypothesis);
+   a face is expected to be excluded iff it is an inner face of even depth; excluded_ok and the whole T_refine verdict (including the
+   budget clause nV n <= nV p + max_additional_vertices) are their declarative statements.  The only hypotheses are the range facts
+   FacesInRange / DestInRange, which follow from well-formedness (decided on every state, tag wf).
+   Satisfiability of all hypotheses on a real run with a hole: OuterProofs.ex_ref_*. *)
 From Coq Require Import ZArith List Bool Arith.
-From SpadeV Require Import Geom.Pred Obs.State Obs.Spec Obs.Query Obs.QueryProp Obs.QueryProofs.
+From SpadeV Require Import Geom.Pred Obs.State Obs.Spec Obs.SpecProp Obs.Query Obs.QueryProp Obs.QueryProofs Refine.Outer Check.Codes Check.Run
+  Cdt.SplitProp Cdt.SplitProofs Refine.OuterProp Refine.OuterProofs.
+Import ListNotations.
 
 Theorem C20_excluded_list_decision : forall expected n got, same_set expected n got = true <-> SameSet expected n got.
 Proof. exact same_set_spec. Qed.
 
+(* closure under free edges: sound, complete, fuel sufficient whenever fuel + |layer| >= number of faces *)
+Theorem C20_free_closure : forall s, FacesInRange s -> forall fuel seen layer,
+  NoDup layer -> (forall f, In f layer -> f < nF s) -> nF s <= fuel + length layer ->
+  NoDup (free_closure s fuel seen layer) /\
+  (forall f, In f (free_closure s fuel seen layer) <-> FreeClosure s seen layer f).
+Proof. exact free_closure_spec. Qed.
+
+(* the k-th computed layer is exactly the set of faces of depth k (minimal number of constraint edges crossed from the outer face) *)
+Theorem C20_layers : forall s, FacesInRange s -> forall k f,
+  In f (nth k (layers s (nF s + 1) [] [0]) []) <-> Layer s k f.
+Proof. exact layers_spec. Qed.
+
+Theorem C20_depth_unique : forall s k k' f, Layer s k f -> Layer s k' f -> k = k'.
+Proof. exact Layer_unique. Qed.
+
+Theorem C20_parity_excluded : forall s, FacesInRange s -> forall f, In f (parity_excluded s) <-> ParityExcluded s f.
+Proof. exact parity_excluded_spec. Qed.
+
+Theorem C20_excluded_ok : forall s, FacesInRange s -> forall got, excluded_ok s got = true <-> ExcludedOk s got.
+Proof. exact excluded_ok_spec. Qed.
+
+(* original constraints: covered through Steiner vertices / kept *)
+Theorem C20_constraints_covered : forall p n npts, DestInRange n ->
+  (constraints_covered p n npts = true <-> ConstraintsCovered p n npts).
+Proof. exact constraints_covered_spec. Qed.
+
+Theorem C20_constraints_kept : forall p n, constraints_kept p n = true <-> ConstraintsKept p n.
+Proof. exact constraints_kept_spec. Qed.
+
+(* the verdict reported under tag `refine`, with the budget clause as plain arithmetic (RefineOk) *)
+Theorem C20_refine_verdict : forall p n npts maxv keep excl nex got, DestInRange n -> FacesInRange n ->
+  (refine_verdict p n npts maxv keep excl nex got = true <-> RefineOk p n npts maxv keep excl nex got).
+Proof. exact refine_verdict_spec. Qed.
+
+Theorem C20_wf_gives_ranges : forall s, Wf s -> FacesInRange s /\ DestInRange s.
+Proof. exact Wf_ranges. Qed.
+
+(* check_refine of Check/Run.v is refine_verdict applied to the parsed arguments and the decoded positions.  (Its statement mentions
+   obs_points, i.e. the binary64 decoding through Flocq, hence the four Flocq/Reals axioms in its assumptions.) *)
+Theorem C20_check_refine_is_refine_verdict : forall p n r1 r2 r3 maxv keep excl complete ne ex npts,
+  obs_points n = Some npts ->
+  check_refine p n [r1; r2; r3; maxv; keep; excl] (complete :: ne :: ex) =
+  [(T_refine, refine_verdict p n npts (if (maxv =? K_dash)%Z then None else Some (Z.to_nat maxv))
+                             (keep =? 1)%Z (excl =? 1)%Z (Z.to_nat ne) (map Z.to_nat ex))].
+Proof. exact check_refine_unfold. Qed.
+
 Print Assumptions C20_excluded_list_decision.
+Print Assumptions C20_free_closure.
+Print Assumptions C20_layers.
+Print Assumptions C20_depth_unique.
+Print Assumptions C20_parity_excluded.
+Print Assumptions C20_excluded_ok.
+Print Assumptions C20_constraints_covered.
+Print Assumptions C20_constraints_kept.
+Print Assumptions C20_refine_verdict.
+Print Assumptions C20_wf_gives_ranges.
+Print Assumptions C20_check_refine_is_refine_verdict.
